@@ -597,6 +597,9 @@ class ExprMixin:
 
     def subscript(self, base_id: Node, idx: Node, st: St, fr: Frame, site, _depth=0) -> Node:
         base = self.res(base_id, st)
+        if idx.op in ("Call", "Subscript") and hasattr(self, "_mask_of_index") and self._mask_of_index(idx) is not None \
+                and base.op not in ("Dict", "Tuple", "List"):
+            idx = self._mask_of_index(idx)      # x[flatnonzero(m)] selects what x[m] selects (1-D per-event arrays)
         if base.op == "Phi" and self.const_key(idx) is not self.NOKEY:
             base = self.select_by_pc(base, st)
         if base.op == "Scatter" and base.attr is None and idx.op == "Tuple" and \
@@ -830,6 +833,18 @@ class ExprMixin:
             v2 = self._comp_it(e, fr, s2, kind, it.args[2], site, depth + 1)
             st.assign_from(self.merge2(c, s1, s2, base_pc))
             return self.phi(c, v1, v2, site)
+        if it.op == "ListOf" and kind in ("list", "gen") and not gen.ifs:
+            # one value per element of a homogeneous result list: again such a list, of the mapped element
+            saved_l = dict(st.locals)
+            try:
+                self.assign(gen.target, it.args[0], fr, st)
+                el = self.eval(e.elt, fr, st)
+            finally:
+                st.locals.clear()
+                st.locals.update(saved_l)
+            lo = self.mk("ListOf", (self.snapshot(el, st),), it.attr, site)
+            lo.extra = dict(it.extra or {})
+            return lo
         saved = dict(st.locals)
         try:
             items = self.known_items(it)
